@@ -8,7 +8,6 @@ import (
 	"go/constant"
 	"go/token"
 	"go/types"
-	"os"
 	"sort"
 	"strings"
 
@@ -1934,7 +1933,7 @@ func ruleCacheGetOrCreate(w *World, r *Report) {
 
 // THUNK-LAZY (C04): the thunk builders do not look into the bindings before the thunk runs.
 func ruleThunkLazy(w *World, r *Report) {
-	r.Rule("THUNK-LAZY", "Location.ExecAction first asks getActionFunc (or an ActionInterpreter's GetThunk) for a thunk and only then replaces the event in the bindings by a private copy (maybeCopyEvent) before it runs the thunk.  Therefore the thunk builders use the bindings parameter only by capturing it in the closure they return or by handing it on to another builder: a call on it, a lookup or a range in the builder's own body takes a snapshot that still holds the event map shared by every action of the event", 2)
+	r.Rule("THUNK-LAZY", "Location.ExecAction first asks getActionFunc (or an ActionInterpreter's GetThunk) for a thunk and only then replaces the event in the bindings by a private copy (maybeCopyEvent) before it runs the thunk.  Therefore the thunk builders use the bindings parameter only by capturing it in the closure they return or by handing it on to another builder: a call on it, a lookup or a range in the builder's own body takes a snapshot that still holds the event map shared by every action of the event", 1)
 	exec := w.Method("core", "Location", "ExecAction")
 	gaf := w.Method("core", "Location", "getActionFunc")
 	bsT := w.Named("core", "Bindings")
@@ -5509,82 +5508,150 @@ func ruleFanModeLocal(w *World, r *Report) {
 		if dependsOn(ifi.Cond, carried) {
 			bad = w.PosOf(ifi)
 		}
-		// ... nor on a process-wide setting: through the value tested, or through the branches that decide which value
-		// a phi in it takes (`serial := policy; if !SystemParameters.X { serial = true }`)
+	}
+	// ... and what makes a failed action the end of the walk is the rule's own policy, and nothing else: the early
+	// return inside the loop that runs the actions one after the other lies behind the true edge of a test whose
+	// condition is made of the rule's `SerialActions` (and nil tests) only — no package-level setting in it, directly
+	// or through the branches that feed a phi.  (Running the actions sequentially because of a process-wide setting is
+	// fine; stopping at the first failure because of it is not.)
+	{
+		// a process-wide *setting*: a field of a package-level structure (SystemParameters.X), or a package-level
+		// variable of a basic type — not a sentinel that values are compared with (`Complete`)
 		isGlobal := func(v ssa.Value) bool {
 			u, ok := v.(*ssa.UnOp)
 			if !ok || u.Op != token.MUL {
 				return false
 			}
 			cur := u.X
+			fields := 0
 			for {
 				switch t := cur.(type) {
 				case *ssa.FieldAddr:
 					cur = t.X
+					fields++
 					continue
+				case *ssa.UnOp:
+					if t.Op == token.MUL {
+						cur = t.X
+						continue
+					}
 				case *ssa.Global:
-					return true
+					if fields > 0 {
+						return true
+					}
+					if pt, isP := t.Type().(*types.Pointer); isP {
+						_, basic := pt.Elem().Underlying().(*types.Basic)
+						return basic
+					}
 				}
 				return false
 			}
 		}
-		// only the branch whose other side is the serial alternative: it runs an action's Do directly
-		isHeader := false
-		for _, l := range loops {
-			if l.Header == b {
-				isHeader = true
+		isPolicy := func(v ssa.Value) bool {
+			_, f, _, ok := loadedField(v)
+			return ok && f == "SerialActions"
+		}
+		pure := func(cond ssa.Value) bool {
+			if !dependsOn(cond, isPolicy) || dependsOn(cond, isGlobal) {
+				return false
 			}
+			tainted := false
+			dependsOn(cond, func(v ssa.Value) bool {
+				p, ok := v.(*ssa.Phi)
+				if !ok {
+					return false
+				}
+				// (the boolean itself, not the loop counters behind `rule`)
+				if b, isB := p.Type().Underlying().(*types.Basic); !isB || b.Info()&types.IsBoolean == 0 {
+					return false
+				}
+				// which value the phi takes is decided by a test of a setting: an incoming edge comes straight from
+				// such a test, or from a block that only such a test leads to
+				settingTest := func(b *ssa.BasicBlock) bool {
+					if len(b.Instrs) == 0 {
+						return false
+					}
+					ifi, ok := b.Instrs[len(b.Instrs)-1].(*ssa.If)
+					return ok && dependsOn(ifi.Cond, isGlobal)
+				}
+				for _, pred := range p.Block().Preds {
+					if settingTest(pred) || (len(pred.Preds) == 1 && settingTest(pred.Preds[0])) {
+						tainted = true
+					}
+				}
+				return false
+			})
+			return !tainted
 		}
-		if isHeader {
-			continue
-		}
-		other := b.Succs[0]
-		if r0 {
-			other = b.Succs[1]
-		}
-		serialSide := false
 		eraDo := w.TryMethod("core", "ExecRuleAction", "Do")
-		seenB := map[*ssa.BasicBlock]bool{b: true, goBlock: true}
-		stackB := []*ssa.BasicBlock{other}
-		for len(stackB) > 0 {
-			ob := stackB[len(stackB)-1]
-			stackB = stackB[:len(stackB)-1]
-			if seenB[ob] {
+		for _, l := range loops {
+			// the serial loop: it calls an action's Do directly
+			direct := false
+			for b := range l.Body {
+				for _, x := range b.Instrs {
+					if c, ok := x.(*ssa.Call); ok && eraDo != nil && c.Common().StaticCallee() == eraDo {
+						direct = true
+					}
+				}
+			}
+			if !direct {
 				continue
 			}
-			seenB[ob] = true
-			for _, x := range ob.Instrs {
-				if c, ok := x.(*ssa.Call); ok && eraDo != nil && c.Common().StaticCallee() == eraDo {
-					serialSide = true
+			// only the innermost such loop
+			inner := true
+			for _, l2 := range loops {
+				if l2 != l && l.Body[l2.Header] && len(l2.Body) < len(l.Body) {
+					for b := range l2.Body {
+						for _, x := range b.Instrs {
+							if c, ok := x.(*ssa.Call); ok && eraDo != nil && c.Common().StaticCallee() == eraDo {
+								inner = false
+							}
+						}
+					}
 				}
 			}
-			stackB = append(stackB, ob.Succs...)
-		}
-		if !serialSide {
-			continue
-		}
-		global := dependsOn(ifi.Cond, isGlobal)
-		dependsOn(ifi.Cond, func(v ssa.Value) bool {
-			p, ok := v.(*ssa.Phi)
-			if !ok {
-				return false
+			if !inner {
+				continue
 			}
-			for _, pred := range p.Block().Preds {
-				if len(pred.Instrs) > 0 && controlDependsOnClassic(fn, pred.Instrs[len(pred.Instrs)-1], isGlobal, nil) {
-					global = true
+			for _, b := range fn.Blocks {
+				if len(b.Instrs) == 0 {
+					continue
 				}
-			}
-			return false
-		})
-		if global {
-			badGlobal = w.PosOf(ifi)
-			if os.Getenv("RULINT_DEBUG_CD") != "" {
-				fmt.Fprintf(os.Stderr, "FAN-MODE global: block %d cond %s\n", b.Index, ifi.Cond.String())
+				ret, ok := b.Instrs[len(b.Instrs)-1].(*ssa.Return)
+				if !ok {
+					continue
+				}
+				// an exit out of the loop: a return block that is entered from the loop's body
+				fromLoop := false
+				for _, pb := range b.Preds {
+					if l.Body[pb] {
+						fromLoop = true
+					}
+				}
+				if !fromLoop {
+					continue
+				}
+				guarded := false
+				for _, gb := range fn.Blocks {
+					if len(gb.Instrs) == 0 {
+						continue
+					}
+					ifi, ok := gb.Instrs[len(gb.Instrs)-1].(*ssa.If)
+					if !ok || !pure(ifi.Cond) {
+						continue
+					}
+					if s0 := gb.Succs[0]; len(s0.Preds) == 1 && s0.Dominates(b) {
+						guarded = true
+					}
+				}
+				if !guarded {
+					badGlobal = w.PosOf(ret)
+				}
 			}
 		}
 	}
 	if badGlobal != "" && bad == "" {
-		r.violation("FAN-MODE-LOCAL", key+" global", badGlobal, "whether a rule's actions run one after the other — and stop at the first failure — depends on a process-wide setting: with it, a failing action of a rule that did not ask for serial actions stops that rule's other actions")
+		r.violation("FAN-MODE-LOCAL", key+" global", badGlobal, "a failed action ends the walk here, and what decides that is not the rule's own `serialActions` alone (a process-wide setting is part of the condition): with it, a failing action of a rule that did not ask for serial actions stops that rule's other actions and the rules walked after it")
 		return
 	}
 	switch {
@@ -6073,8 +6140,36 @@ func ruleAddExpiresStale(w *World, r *Report) {
 		r.exempt("ADD-EXPIRES-STALE", lkey, w.Pos(lin.Pos()), "LinearState.Add does not call Storage.Add: shape not recognised, not decided")
 		return
 	}
+	// (on the edge on which nothing is stored under the id there is nothing to purge)
+	absent := map[bedge]bool{}
+	for _, b := range lin.Blocks {
+		if len(b.Instrs) == 0 {
+			continue
+		}
+		ifi, ok := b.Instrs[len(b.Instrs)-1].(*ssa.If)
+		if !ok {
+			continue
+		}
+		ct, ok := decodeIf(ifi)
+		if !ok {
+			continue
+		}
+		ex, ok := resolveSpill(ct.V).(*ssa.Extract)
+		if !ok || ex.Index != 1 {
+			continue
+		}
+		lk, ok := ex.Tuple.(*ssa.Lookup)
+		if !ok || !lk.CommaOk || !isFieldLoad(lk.X, "core.LinearState", "Facts") {
+			continue
+		}
+		if ct.TrueWhen == "true" {
+			absent[bedge{b, 1}] = true
+		} else if ct.TrueWhen == "false" {
+			absent[bedge{b, 0}] = true
+		}
+	}
 	for _, wr := range writes {
-		if hit, path := reach(lin, nil, func(x ssa.Instruction) bool { return x == wr }, isLPurge, nil); hit != nil {
+		if hit, path := reach(lin, nil, func(x ssa.Instruction) bool { return x == wr }, isLPurge, edgeFilterOf(absent)); hit != nil {
 			r.violation("ADD-EXPIRES-STALE", lkey, w.PosOf(wr), "LinearState.Add writes over a predecessor that may have expired unnoticed without purging it first: the predecessor's dependents (its `disabled` flag, facts that name it in deleteWith) become the new fact's", blockPathString(w, path)...)
 			return
 		}
@@ -8091,7 +8186,16 @@ func ruleCacheGen(prop string) ruleFn {
 					if !ok || !isFieldLoad(mu.Map, owner, "cachedRules") {
 						return
 					}
-					if controlDependsOn(fn, in, func(v ssa.Value) bool { return isFieldLoad(v, owner, "cacheGen") }) {
+					if controlDependsOn(fn, in, func(v ssa.Value) bool {
+						if isFieldLoad(v, owner, "cacheGen") {
+							return true
+						}
+						if c, ok := v.(*ssa.Call); ok && c.Common().StaticCallee() != nil && c.Common().StaticCallee().Pkg != nil && c.Common().StaticCallee().Pkg.Pkg.Path() == "sync/atomic" && len(c.Common().Args) > 0 {
+							_, f, _, okf := fieldOf(c.Common().Args[0])
+							return okf && f == "cacheGen"
+						}
+						return false
+					}) {
 						pubOK = true
 					} else {
 						pubOK = false
@@ -8101,6 +8205,73 @@ func ruleCacheGen(prop string) ruleFn {
 			}
 			if pubOK {
 				r.ok("CACHE-GEN", key+" publish", "", "a parsed rule is cached only if nothing was invalidated since the event noted the count")
+			}
+			// (1b) comparing the count and putting the rule in are one step with respect to an invalidation: both sides
+			// hold the cache's own mutex (a lock-free map with an atomic count is not enough: between the comparison
+			// and the store an invalidation fits, and the replaced rule is cached for good)
+			{
+				e := newLocksetEngine(w, nil)
+				cl := owner + ".cacheLock"
+				held := func(g *ssa.Function, at ssa.Instruction) bool {
+					ok := false
+					allInstrs(g, func(x ssa.Instruction) {
+						if e.acquires(x, cl) && reachable(g, x, at) && between(g, x, at, func(y ssa.Instruction) bool { return e.releases(y, cl) }) == nil {
+							ok = true
+						}
+					})
+					return ok
+				}
+				isGenWrite := func(x ssa.Instruction) bool {
+					if _, ok := storesToField(x, owner, "cacheGen"); ok {
+						return true
+					}
+					if c := callOf(x); c != nil && c.StaticCallee() != nil && c.StaticCallee().Pkg != nil && c.StaticCallee().Pkg.Pkg.Path() == "sync/atomic" && strings.HasPrefix(c.StaticCallee().Name(), "Add") && len(c.Args) > 0 {
+						_, f, _, ok := fieldOf(c.Args[0])
+						return ok && f == "cacheGen"
+					}
+					return false
+				}
+				isPublish := func(x ssa.Instruction) bool {
+					if mu, ok := x.(*ssa.MapUpdate); ok && isFieldLoad(mu.Map, owner, "cachedRules") {
+						return true
+					}
+					if c := callOf(x); c != nil && c.StaticCallee() != nil && c.StaticCallee().Signature.Recv() != nil && len(c.Args) > 0 {
+						switch c.StaticCallee().Name() {
+						case "Store", "LoadOrStore", "Add", "Set", "Put":
+							_, f, _, ok := fieldOf(c.Args[0])
+							return ok && f == "cachedRules"
+						}
+					}
+					return false
+				}
+				nP, nW, loose := 0, 0, ""
+				for _, g := range w.MethodsOf(nt) {
+					if isTestFile(w, g) {
+						continue
+					}
+					allInstrs(g, func(x ssa.Instruction) {
+						switch {
+						case isPublish(x):
+							nP++
+							if !held(g, x) {
+								loose = "the rule is put into the cache at " + w.PosOf(x) + " without the cache's mutex"
+							}
+						case isGenWrite(x):
+							nW++
+							if !held(g, x) {
+								loose = "the invalidation count changes at " + w.PosOf(x) + " without the cache's mutex"
+							}
+						}
+					})
+				}
+				switch {
+				case nP == 0 || nW == 0:
+					r.exempt("CACHE-GEN", key+" atomic", "", "no publication / no change of the count found in the state's methods: shape not recognised, not decided")
+				case loose != "":
+					r.violation("CACHE-GEN", key+" atomic", "", loose+": the comparison of the count and the publication are not one step with respect to an invalidation, so an event that overlaps the replacement of a rule can cache the replaced rule for good")
+				default:
+					r.ok("CACHE-GEN", key+" atomic", "", "publication and invalidation exclude each other (both under the cache's mutex)")
+				}
 			}
 			// (2) where a fact is set (inserted or replaced), the invalidation is in the same critical section: no
 			// operation on the state's lock lies between the two.  (LOCKSET decides that the set itself is made with
@@ -8121,19 +8292,76 @@ func ruleCacheGen(prop string) ruleFn {
 					if _, ok := storesToField(in, owner, "cacheGen"); ok {
 						found = true
 					}
+					// an atomic counter: atomic.AddUint64(&s.cacheGen, 1)
+					if c := callOf(in); c != nil && c.StaticCallee() != nil && c.StaticCallee().Pkg != nil && c.StaticCallee().Pkg.Pkg.Path() == "sync/atomic" && strings.HasPrefix(c.StaticCallee().Name(), "Add") && len(c.Args) > 0 {
+						if _, f, _, ok := fieldOf(c.Args[0]); ok && f == "cacheGen" {
+							found = true
+						}
+					}
 				})
 				return found
 			}
 			sets := 0
+			// a function that sets a fact and does not invalidate itself is a helper (`put`): the obligation is its
+			// callers', with the id they hand it
+			setsFact := func(g *ssa.Function) (*ssa.MapUpdate, bool) {
+				var mu *ssa.MapUpdate
+				allInstrs(g, func(in ssa.Instruction) {
+					if m, ok := in.(*ssa.MapUpdate); ok && isFieldLoad(m.Map, owner, factField) {
+						mu = m
+					}
+				})
+				return mu, mu != nil
+			}
+			selfInvalidates := func(g *ssa.Function) bool {
+				yes := false
+				allInstrs(g, func(x ssa.Instruction) {
+					if c := callOf(x); c != nil && invalidates(c.StaticCallee()) {
+						yes = true
+					}
+				})
+				return yes || invalidates(g)
+			}
+			type site struct {
+				fn  *ssa.Function
+				in  ssa.Instruction
+				key ssa.Value
+			}
+			var sites []site
 			for _, fn := range w.MethodsOf(nt) {
 				if fn.Name() == "Load" || isTestFile(w, fn) {
 					continue
 				}
-				allInstrs(fn, func(in ssa.Instruction) {
-					mu, ok := in.(*ssa.MapUpdate)
-					if !ok || !isFieldLoad(mu.Map, owner, factField) {
-						return
+				if mu, ok := setsFact(fn); ok && !selfInvalidates(fn) {
+					// a helper: its call sites (outside Load)
+					keyIdx := -1
+					for i, p := range fn.Params {
+						if resolveSpill(mu.Key) == ssa.Value(p) {
+							keyIdx = i
+						}
 					}
+					for _, e := range w.Callers(fn) {
+						cf := e.Caller.Func
+						if cf == nil || cf.Name() == "Load" || isTestFile(w, cf) {
+							continue
+						}
+						var k ssa.Value
+						if keyIdx >= 0 && keyIdx < len(e.Site.Common().Args) {
+							k = e.Site.Common().Args[keyIdx]
+						}
+						sites = append(sites, site{cf, e.Site, k})
+					}
+					continue
+				}
+				allInstrs(fn, func(in ssa.Instruction) {
+					if mu, ok := in.(*ssa.MapUpdate); ok && isFieldLoad(mu.Map, owner, factField) {
+						sites = append(sites, site{fn, in, mu.Key})
+					}
+				})
+			}
+			for _, st := range sites {
+				fn, in := st.fn, st.in
+				{
 					sets++
 					k2 := key + " set in=" + fname(fn)
 					same := false
@@ -8144,7 +8372,7 @@ func ruleCacheGen(prop string) ruleFn {
 						}
 						// under the id the fact is stored under (not the one the caller gave: a property's is made
 						// from the fact)
-						if len(c.Args) >= 2 && resolveSpill(c.Args[1]) != resolveSpill(mu.Key) {
+						if len(c.Args) >= 2 && st.key != nil && resolveSpill(c.Args[1]) != resolveSpill(st.key) {
 							return
 						}
 						if reachable(fn, in, x) && between(fn, in, x, isLockOp) == nil {
@@ -8159,7 +8387,7 @@ func ruleCacheGen(prop string) ruleFn {
 					} else {
 						r.violation("CACHE-GEN", k2, w.PosOf(in), "the fact is set here, and the parsed-rule cache is not invalidated in the same critical section: an event can note the invalidation count after the invalidation, still read the old rule, and cache it for good")
 					}
-				})
+				}
 			}
 			if sets == 0 {
 				r.exempt("CACHE-GEN", key+" set", "", "no method sets an entry of the fact map: shape not recognised, not decided")
@@ -8517,8 +8745,69 @@ func ruleStateFresh(prop string) ruleFn {
 					return true
 				}
 				if f := cc.Common().StaticCallee(); f != nil && w.IsRulio(f) && f != da {
-					ok, _ := passesSource(w, f, isProvider, isSuccessReturnPS, 1)
-					return ok
+					if ok, _ := passesSource(w, f, isProvider, isSuccessReturnPS, 1); ok {
+						return true
+					}
+					// a memo that lives for one walk: the helper may also answer out of a map that it is *handed*
+					// (a parameter, which the walk's entry point makes afresh) — not out of a field of the location
+					walkMemo := func(g *ssa.Function, site *ssa.CallCommon) bool {
+						okAll, some := true, false
+						edges := map[bedge]bool{}
+						// returns that hand back a lookup in a map parameter are fine; every other success return has
+						// to lie behind the provider
+						var memoRets []ssa.Instruction
+						allInstrs(g, func(x ssa.Instruction) {
+							ret, isRet := x.(*ssa.Return)
+							if !isRet || !isSuccessReturnPS(x) || len(ret.Results) == 0 {
+								return
+							}
+							fromParamMap := false
+							dependsOn(ret.Results[0], func(y ssa.Value) bool {
+								lk, isLk := y.(*ssa.Lookup)
+								if !isLk {
+									return false
+								}
+								if pm, isP := resolveSpill(lk.X).(*ssa.Parameter); isP {
+									// ... and what the caller hands in is a parameter of its own or a fresh map
+									for i, gp := range g.Params {
+										if gp == pm && i < len(site.Args) {
+											switch resolveSpill(site.Args[i]).(type) {
+											case *ssa.Parameter, *ssa.MakeMap:
+												fromParamMap = true
+											}
+										}
+									}
+								}
+								return false
+							})
+							if fromParamMap {
+								memoRets = append(memoRets, x)
+								some = true
+							}
+						})
+						_ = edges
+						isMemoRet := func(x ssa.Instruction) bool {
+							for _, m := range memoRets {
+								if m == x {
+									return true
+								}
+							}
+							return false
+						}
+						isB := func(x ssa.Instruction) bool {
+							c := callOf(x)
+							return c != nil && isProvider(c)
+						}
+						isRet := func(x ssa.Instruction) bool {
+							_, r := x.(*ssa.Return)
+							return r && isSuccessReturnPS(x) && !isMemoRet(x)
+						}
+						if h, _ := reach(g, nil, isRet, isB, nil); h != nil {
+							okAll = false
+						}
+						return okAll && some
+					}
+					return walkMemo(f, cc.Common())
 				}
 				return false
 			})
@@ -9428,5 +9717,45 @@ func rulePurgeRecheck(prop string) ruleFn {
 		if n == 0 {
 			r.exempt("PURGE-RECHECK", "iface=core.State", "", "no state function removes ids out of a list it is handed: the premise (readers note, a purge removes) does not hold; not decided")
 		}
+	}
+}
+
+// PANIC-MUST (C13): a pattern that comes from a request is compiled with the function that returns an error.
+func rulePanicMust(w *World, r *Report) {
+	r.Rule("PANIC-MUST", "regexp.MustCompile (and the other Must* constructors of the standard library) panic on a malformed argument; they are for patterns written into the program.  No call of such a function in core, sys, service or cron has an argument that is not a constant: a variable name out of a rule's pattern (`?value[`), spliced into a regular expression and compiled with MustCompile, panics in the goroutine of a concurrently run action, outside the script engine's recover, and takes the process down", 1)
+	n := 0
+	for _, fn := range w.Funcs {
+		if !w.IsRulio(fn) || isTestFile(w, fn) {
+			continue
+		}
+		if p := w.RelPkg(fn); p != "core" && p != "sys" && p != "service" && p != "cron" {
+			continue
+		}
+		allInstrs(fn, func(in ssa.Instruction) {
+			c := callOf(in)
+			if c == nil || c.StaticCallee() == nil || c.StaticCallee().Pkg == nil || w.IsRulio(c.StaticCallee()) {
+				return
+			}
+			f := c.StaticCallee()
+			if !strings.HasPrefix(f.Name(), "Must") {
+				return
+			}
+			n++
+			key := "call=" + fname(fn) + "->" + f.Pkg.Pkg.Name() + "." + f.Name()
+			konst := true
+			for _, a := range c.Args {
+				if _, isC := a.(*ssa.Const); !isC {
+					konst = false
+				}
+			}
+			if konst {
+				r.ok("PANIC-MUST", key, w.PosOf(in), "a pattern written into the program")
+			} else {
+				r.violation("PANIC-MUST", key, w.PosOf(in), "a "+f.Name()+" whose argument is computed at run time: a malformed value panics here instead of being refused")
+			}
+		})
+	}
+	if n == 0 {
+		r.ok("PANIC-MUST", "module", "", "no Must* constructor is called outside tests")
 	}
 }
